@@ -199,6 +199,13 @@ func (v *VerifClient) VerifAvailability() map[string]bool {
 	return out
 }
 
+// ConnCacheLock takes the connection cache's write lock (to hold a goroutine of the client at
+// its next access to the connection cache, e.g. between publishing a region and what follows).
+func (v *VerifClient) ConnCacheLock() { v.C.clients.m.Lock() }
+
+// ConnCacheUnlock releases the connection cache's write lock.
+func (v *VerifClient) ConnCacheUnlock() { v.C.clients.m.Unlock() }
+
 // ConnCacheSize returns the number of connection objects in the connection cache.
 func (v *VerifClient) ConnCacheSize() int {
 	v.C.clients.m.RLock()
